@@ -68,6 +68,7 @@ type obsNode struct {
 	name string
 	c    *cs.ConsensusState
 	app  *nodeApp
+	db   dbm.DB // the node's status DB (CreateStatusFromGenesisDoc, ApplyBlock's SaveStatus)
 	peer int
 }
 
@@ -77,7 +78,35 @@ func newObserver(name string, gen *types.GenesisDoc) (*obsNode, error) {
 	if err != nil {
 		return nil, err
 	}
-	app := &nodeApp{}
+	return buildObserver(name, db, status, &nodeApp{})
+}
+
+// restartObserver rebuilds a node from its own status DB the way node.NewNode does:
+// LoadStatus (or LoadStatusByHeight, the roll-back path), then status.Copy() into a fresh
+// ConsensusState (which reconstructs LastCommit from the seen commit of the application).
+func restartObserver(n *obsNode, via string) (*obsNode, error) {
+	var status cs.NewStatus
+	var err error
+	if p := guard(func() {
+		if via == "LoadStatusByHeight" {
+			status, err = cs.LoadStatusByHeight(n.db, n.app.height)
+		} else {
+			status, err = cs.LoadStatus(n.db)
+		}
+	}); p != "" {
+		return nil, fmt.Errorf("%s panicked: %s", via, p)
+	}
+	if err != nil {
+		return nil, fmt.Errorf("%s: %v", via, err)
+	}
+	var out *obsNode
+	if p := guard(func() { out, err = buildObserver(n.name, n.db, status.Copy(), n.app) }); p != "" {
+		return nil, fmt.Errorf("rebuilding node %s from its status DB panicked: %s", n.name, p)
+	}
+	return out, err
+}
+
+func buildObserver(name string, db dbm.DB, status cs.NewStatus, app *nodeApp) (*obsNode, error) {
 	conf := cfg.TestConsensusConfig()
 	conf.SkipTimeoutCommit = false
 	conf.CreateEmptyBlocks = true
@@ -92,7 +121,7 @@ func newObserver(name string, gen *types.GenesisDoc) (*obsNode, error) {
 	}
 	c.SetEventBus(eb)
 	c.VerifInstall()
-	return &obsNode{name: name, c: c, app: app}, nil
+	return &obsNode{name: name, c: c, app: app, db: db}, nil
 }
 
 func (n *obsNode) deliver(m cs.ConsensusMessage) error {
@@ -138,15 +167,23 @@ func newWorld(seed string, powers []int64) *nodeWorld {
 }
 
 func (w *nodeWorld) vote(i int, typ byte, round int, id types.BlockID) (*types.Vote, error) {
-	v := &types.Vote{ValidatorAddress: w.pvs[i].GetAddress(), ValidatorIndex: i, ValidatorSize: len(w.pvs), Height: types.BlockHeightOne, Round: round,
+	return w.voteAt(types.BlockHeightOne, i, typ, round, id)
+}
+
+func (w *nodeWorld) voteAt(h uint64, i int, typ byte, round int, id types.BlockID) (*types.Vote, error) {
+	v := &types.Vote{ValidatorAddress: w.pvs[i].GetAddress(), ValidatorIndex: i, ValidatorSize: len(w.pvs), Height: h, Round: round,
 		Timestamp: time.Unix(1700000000, 0).UTC(), Type: typ, BlockID: id}
 	return v, w.pvs[i].SignVote(w.chain, v)
 }
 
 // votes delivers one vote of the given kind from every validator.
 func (w *nodeWorld) votes(n *obsNode, typ byte, round int, id types.BlockID) error {
+	return w.votesAt(types.BlockHeightOne, n, typ, round, id)
+}
+
+func (w *nodeWorld) votesAt(h uint64, n *obsNode, typ byte, round int, id types.BlockID) error {
 	for i := range w.pvs {
-		v, err := w.vote(i, typ, round, id)
+		v, err := w.voteAt(h, i, typ, round, id)
 		if err != nil {
 			return err
 		}
@@ -420,7 +457,7 @@ func nodeScenarios(c *core.Ctx, merge func(*jobResult)) map[string]interface{} {
 		if crash != "" {
 			c.Infra("consensus scenarios died (at %s): %s", at, crash)
 		}
-		return map[string]interface{}{"scenarios": n, "what": "two real ConsensusState observers per scenario: one walks rounds 0..r, one skips 0->r; proposer, proposal acceptance and the sets carried into height 2 compared with the specification"}
+		return map[string]interface{}{"scenarios": n, "what": "two real ConsensusState observers per scenario: (a) one walks rounds 0..r, one skips 0->r; proposer, proposal acceptance and the sets carried into height 2 compared with the specification; (b) one is rebuilt from its own status DB (LoadStatus / LoadStatusByHeight, status.Copy()) at height 1 or 2, one keeps running; proposers of heights 1 and 2, LastValidators' proposer, proposal acceptance, validateBlock / VerifyFaultValEvidence of block 2, the sets carried into height 3"}
 	}
 	res := nodeJob(c)
 	merge(res)
@@ -470,6 +507,27 @@ func nodeJob(c *core.Ctx) *jobResult {
 						res.Findings = append(res.Findings, jFinding{f.key, f.desc, f.record})
 					}
 				}
+			}
+		}
+	}
+	// persist-and-reload: one of the two observers is rebuilt from its status DB
+	for _, rc := range restartCases(c.Seed, all, c.Pick(24, 240)) {
+		i++
+		fmt.Printf("AT restart scenario %+v\n", rc)
+		var fs []finding
+		if p := guard(func() { fs = runRestartCase(fmt.Sprintf("%d-r%d", c.Seed, i), rc, res) }); p != "" {
+			fs = append(fs, finding{key: "harness", desc: fmt.Sprintf("restart scenario %+v panicked: %s", rc, p)})
+		}
+		res.Behaviours++
+		res.Nontrivial++
+		res.Covered++
+		for _, f := range fs {
+			dup := false
+			for _, o := range res.Findings {
+				dup = dup || o.Key == f.key
+			}
+			if !dup {
+				res.Findings = append(res.Findings, jFinding{f.key, f.desc, f.record})
 			}
 		}
 	}
